@@ -114,6 +114,7 @@ def add_entry(L, rng, workdirs, a, tag, used, kinds=None, spellings=None,
     target = None
     tgt_rel = None
     lexdir = None
+    via_link = None
     if kind in ('link_file', 'link_dir', 'link_link'):
         tv = rng.choice(vols)
         tdir = workdirs[tv]
@@ -178,13 +179,27 @@ def add_entry(L, rng, workdirs, a, tag, used, kinds=None, spellings=None,
         lv = rng.choice(vols)
         L.add({'p': workdirs[lv] + '/pl%d' % a, 't': 'l', 'to': '@/' + d})
         spelling = os.path.relpath('/' + workdirs[lv], '/' + cwd) + '/pl%d/' % a + name
+        via_link = workdirs[lv] + '/pl%d' % a
     if spelling.startswith('@') and sp not in ('abs', 'abs_trail'):
         spelling = './' + spelling      # '@' is the harness's root placeholder
     out = {'spelling': spelling, 'class': sp, 'kind': kind, 'rel': rel,
            'target': tgt_rel}
     if lexdir:
         out['lexdir'] = lexdir
+    if via_link:
+        out['via_link'] = via_link
     return out
+
+
+def add_link_companion(L, rng, arg):
+    """a later argument of the same command: the symlink THROUGH which arg was
+    reached, with or without trailing slashes (it lives on its own volume,
+    whatever was found out about the directory it points to)"""
+    link = arg['via_link']
+    dfrom = os.path.relpath('/' + link, '/' + L.cwd)
+    return {'spelling': dfrom + rng.choice(['/', '/', '', '//']),
+            'class': 'link-companion', 'kind': 'link_dir', 'rel': link,
+            'target': os.path.dirname(arg['rel'])}
 
 
 def add_companion(L, rng, arg, a, tag, used):
@@ -450,6 +465,10 @@ def gen_case(rng, index, tier):
             if comp:
                 i = args.index(arg)
                 args.insert(i + rng.choice([0, 1]), comp)
+    for arg in list(args):
+        if arg.get('via_link') and rng.random() < 0.5 and \
+                not any(a.get('rel') == arg['via_link'] for a in args):
+            args.insert(args.index(arg) + 1, add_link_companion(L, rng, arg))
     # sometimes a nonexistent argument too
     if rng.random() < 0.2:
         args.insert(rng.randrange(len(args) + 1),
